@@ -10,6 +10,9 @@ theorem retry_bound_to_caller : Generated.ClientWrite.retryBoundToCaller = true 
 
 /-- Write, branch by branch -/
 theorem run_eq (s : Scn) :
+    (tsFails s = true ∧
+      run s = { posts := 0, auths := 0, toks := [], end_ := .err .tokenSource, conn := .usable }) ∨
+    tsFails s = false ∧ (
     (authAsked s = true ∧ s.auth = .deny ∧
       run s = { posts := 1, auths := 1, toks := [false], end_ := .err .auth, conn := .usable }) ∨
     (authAsked s = true ∧ s.auth = .block ∧ s.cancel = true ∧
@@ -18,48 +21,54 @@ theorem run_eq (s : Scn) :
       run s = { posts := 1, auths := 1, toks := [false], end_ := .blocked, conn := .usable }) ∨
     (authAsked s = true ∧ s.auth = .grant ∧
       run s = { posts := 2, auths := 1, toks := [false, true],
-                end_ := (attempt (retryEnds s) s.kind s.a2).1, conn := (attempt (retryEnds s) s.kind s.a2).2 }) ∨
+                end_ := (attempt (retryEnds s) s.cancel s.kind s.a2).1, conn := (attempt (retryEnds s) s.cancel s.kind s.a2).2 }) ∨
     (authAsked s = false ∧
       run s = { posts := 1, auths := 0, toks := [false],
-                end_ := (attempt s.cancel s.kind s.a1).1, conn := (attempt s.cancel s.kind s.a1).2 }) := by
-  rcases s with ⟨kind, auth, cancel, a1, a2⟩
-  cases a1 with
-  | terr => simp [run, authAsked]
-  | hang => simp [run, authAsked]
-  | ok p sid => simp [run, authAsked]
-  | st c rpc =>
-    by_cases hA : isAuthStatus c = true
-    · cases auth <;> cases cancel <;> simp [run, authAsked, hA, attempt]
-    · cases auth <;> simp [run, authAsked, hA, attempt]
+                end_ := (attempt s.cancel s.cancel s.kind s.a1).1, conn := (attempt s.cancel s.cancel s.kind s.a1).2 })) := by
+  by_cases hT : tsFails s = true
+  · left; simp [run, hT]
+  · right
+    simp only [Bool.not_eq_true] at hT
+    refine ⟨hT, ?_⟩
+    rcases s with ⟨kind, auth, ts, cancel, a1, a2⟩
+    cases a1 with
+    | terr => simp [run, hT, authAsked]
+    | hang => simp [run, hT, authAsked]
+    | ok p sid => simp [run, hT, authAsked]
+    | st c rpc =>
+      by_cases hA : isAuthStatus c = true
+      · cases auth <;> cases cancel <;> simp [run, hT, authAsked, hA, attempt]
+      · cases auth <;> simp [run, hT, authAsked, hA, attempt]
 
 /-- what one POST makes of an answer -/
-theorem attempt_spec (e : Bool) (k : Kind) (a : Ans) :
-    ((attempt e k a).1 = .blocked ↔ (a = .hang ∧ e = false)) ∧
-    (((attempt e k a).1 = .result ∨ (attempt e k a).1 = .done) ↔ acceptedAns k a = true) ∧
-    ((attempt e k a).1 = .result → k = .call) ∧ ((attempt e k a).1 = .done → k = .notif) ∧
-    (rejectionAns e a = true → (attempt e k a).2 = .usable ∧ ((attempt e k a).1 = .blocked ∨ ∃ x, (attempt e k a).1 = .err x)) ∧
-    (acceptedAns k a = true → (attempt e k a).2 = .usable) ∧
-    (goneAns a = true → (attempt e k a).2 = .dead ∧ (attempt e k a).1 = .err .gone) := by
+theorem attempt_spec (e cn : Bool) (k : Kind) (a : Ans) :
+    ((attempt e cn k a).1 = .blocked ↔ ((a = .hang ∧ e = false) ∨ (a = .ok .jsonHang true ∧ k = .call ∧ cn = false))) ∧
+    (((attempt e cn k a).1 = .result ∨ (attempt e cn k a).1 = .done) ↔ acceptedAns k a = true) ∧
+    ((attempt e cn k a).1 = .result → k = .call) ∧ ((attempt e cn k a).1 = .done → k = .notif) ∧
+    ((rejectionAns cn k a = true ∧ (cn = true → e = true)) → (attempt e cn k a).2 = .usable) ∧
+    (acceptedAns k a = true → (attempt e cn k a).2 = .usable) ∧
+    (goneAns a = true → (attempt e cn k a).2 = .dead ∧ (attempt e cn k a).1 = .err .gone) := by
   cases a with
   | terr => simp [attempt, acceptedAns, rejectionAns, goneAns]
-  | hang => cases e <;> simp [attempt, acceptedAns, rejectionAns, goneAns]
+  | hang => cases e <;> cases cn <;> simp [attempt, acceptedAns, rejectionAns, goneAns]
   | st c rpc =>
     cases rpc <;> by_cases hT : isTransient c = true <;> by_cases hG : isGone c = true <;>
       simp [attempt, afterResponse, acceptedAns, rejectionAns, goneAns, hT, hG]
   | ok p sid =>
-    cases p <;> cases sid <;> cases k <;> simp [attempt, afterResponse, acceptedAns, rejectionAns, goneAns]
+    cases p <;> cases sid <;> cases k <;> cases cn <;> simp [attempt, afterResponse, acceptedAns, rejectionAns, goneAns]
 
 /-- **C01, client Write path.** Once the caller's context has ended the request is not blocked any more: whatever the
-peer answered (or did not answer) to the first POST and to the retried one, whatever the OAuth handler did. -/
+peer answered (or did not answer) to the first POST and to the retried one, whatever the OAuth handler and its token
+source did. -/
 theorem never_blocked_after_ctx_end (s : Scn) (h : s.cancel = true) : (run s).end_ ≠ .blocked := by
   have hb := retry_bound_to_caller
-  rcases run_eq s with ⟨_, _, hr⟩ | ⟨_, _, _, hr⟩ | ⟨_, _, hc, hr⟩ | ⟨_, _, hr⟩ | ⟨_, hr⟩ <;> rw [hr] <;> simp
+  rcases run_eq s with ⟨_, hr⟩ | ⟨_, ⟨_, _, hr⟩ | ⟨_, _, _, hr⟩ | ⟨_, _, hc, hr⟩ | ⟨_, _, hr⟩ | ⟨_, hr⟩⟩ <;> rw [hr] <;> simp
   · simp [h] at hc
   · intro hx
-    have := ((attempt_spec (retryEnds s) s.kind s.a2).1).1 hx
+    have := ((attempt_spec (retryEnds s) s.cancel s.kind s.a2).1).1 hx
     simp [retryEnds, h, hb] at this
   · intro hx
-    have := ((attempt_spec s.cancel s.kind s.a1).1).1 hx
+    have := ((attempt_spec s.cancel s.cancel s.kind s.a1).1).1 hx
     simp [h] at this
 
 /-! ### what the harness sees of a run -/
@@ -79,50 +88,55 @@ theorem obs_auths (r : Out) : (obsOf r).auths = r.auths := rfl
 
 /-! ### the model has the property, clause by clause -/
 
-/-- The message is POSTed once; a second time only after a 401/403 for which the handler granted authorization —
-and then exactly once more, carrying the token. -/
+/-- The message is POSTed once — not at all exactly when the handler's token source fails; a second time only after
+a 401/403 for which the handler granted authorization, and then exactly once more, carrying the token. -/
 theorem sent_once_retry_only_after_grant (s : Scn) :
     PSent s (obsOf (run s)) ∧ ((run s).posts = 2 → (run s).toks = [false, true]) := by
-  rcases run_eq s with ⟨h1, h2, hr⟩ | ⟨h1, h2, _, hr⟩ | ⟨h1, h2, _, hr⟩ | ⟨h1, h2, hr⟩ | ⟨h1, hr⟩ <;>
+  rcases run_eq s with ⟨h1, hr⟩ | ⟨hT, ⟨h1, h2, hr⟩ | ⟨h1, h2, _, hr⟩ | ⟨h1, h2, _, hr⟩ | ⟨h1, h2, hr⟩ | ⟨h1, hr⟩⟩ <;>
     simp_all [PSent, obs_posts]
 
 /-- The handler is asked at most once per message, and only for a 401/403. -/
 theorem authorize_at_most_once (s : Scn) : PAuth s (obsOf (run s)) := by
-  rcases run_eq s with ⟨h1, h2, hr⟩ | ⟨h1, h2, _, hr⟩ | ⟨h1, h2, _, hr⟩ | ⟨h1, h2, hr⟩ | ⟨h1, hr⟩ <;>
+  rcases run_eq s with ⟨h1, hr⟩ | ⟨hT, ⟨h1, h2, hr⟩ | ⟨h1, h2, _, hr⟩ | ⟨h1, h2, _, hr⟩ | ⟨h1, h2, hr⟩ | ⟨h1, hr⟩⟩ <;>
     simp [PAuth, obs_auths, hr, h1]
 
 theorem ctx_model (s : Scn) : PCtx s (obsOf (run s)) := by
   intro h hx
   exact never_blocked_after_ctx_end s h ((obs_hang _).1 hx)
 
-/-- A request stays blocked only while something is really pending — its last POST has not been answered, or the
-authorization flow has not returned — and the caller's context is live. -/
+/-- A request stays blocked only while something is really pending — its last POST has not been answered, the JSON
+body of the answer does not come, or the authorization flow has not returned — and the caller's context is live. -/
 theorem blocked_only_if_pending (s : Scn) : PPending s (obsOf (run s)) := by
   have hb := retry_bound_to_caller
   intro hx
   have hx := (obs_hang _).1 hx
-  rcases run_eq s with ⟨h1, h2, hr⟩ | ⟨h1, h2, _, hr⟩ | ⟨h1, h2, hc, hr⟩ | ⟨h1, h2, hr⟩ | ⟨h1, hr⟩ <;>
+  rcases run_eq s with ⟨h1, hr⟩ | ⟨hT, ⟨h1, h2, hr⟩ | ⟨h1, h2, _, hr⟩ | ⟨h1, h2, hc, hr⟩ | ⟨h1, h2, hr⟩ | ⟨h1, hr⟩⟩ <;>
     rw [hr] at hx <;> simp only [obs_posts, hr] <;> simp at hx
-  · simp [pending, firstOnly, h1, h2, hc]
-  · have := ((attempt_spec (retryEnds s) s.kind s.a2).1).1 hx
-    simp [retryEnds, hb] at this
-    simp [pending, firstOnly, lastAns, this]
-  · have := ((attempt_spec s.cancel s.kind s.a1).1).1 hx
-    simp [pending, firstOnly, lastAns, this, h1]
+  · simp [pending, unsent, firstOnly, h1, h2, hc]
+  · have := ((attempt_spec (retryEnds s) s.cancel s.kind s.a2).1).1 hx
+    rcases this with ⟨ha, he⟩ | ⟨ha, hk, hc⟩
+    · simp [retryEnds, hb] at he
+      simp [pending, unsent, firstOnly, lastAns, ha, he, waitingAns]
+    · simp [pending, unsent, firstOnly, lastAns, ha, hk, hc, waitingAns]
+  · have := ((attempt_spec s.cancel s.cancel s.kind s.a1).1).1 hx
+    rcases this with ⟨ha, he⟩ | ⟨ha, hk, hc⟩
+    · simp [pending, unsent, firstOnly, lastAns, ha, he, h1, waitingAns]
+    · simp [pending, unsent, firstOnly, lastAns, ha, hk, hc, h1, waitingAns]
 
 /-- The request completes with a result exactly when the server's real response to it came back on the last POST
 (a call: a complete JSON or SSE response under the session's id; a notification: its acceptance). -/
 theorem result_iff_accepted (s : Scn) :
     (((run s).end_ = .result ∨ (run s).end_ = .done) ↔ accepted s (run s).posts = true) ∧
     ((run s).end_ = .result → s.kind = .call) ∧ ((run s).end_ = .done → s.kind = .notif) := by
-  rcases run_eq s with ⟨h1, h2, hr⟩ | ⟨h1, h2, _, hr⟩ | ⟨h1, h2, _, hr⟩ | ⟨h1, h2, hr⟩ | ⟨h1, hr⟩ <;> rw [hr] <;>
-    simp only [accepted, firstOnly, lastAns, h1]
+  rcases run_eq s with ⟨h1, hr⟩ | ⟨hT, ⟨h1, h2, hr⟩ | ⟨h1, h2, _, hr⟩ | ⟨h1, h2, _, hr⟩ | ⟨h1, h2, hr⟩ | ⟨h1, hr⟩⟩ <;> rw [hr] <;>
+    simp only [accepted, unsent, firstOnly, lastAns, h1]
   · simp
   · simp
   · simp
-  · have := attempt_spec (retryEnds s) s.kind s.a2
+  · simp
+  · have := attempt_spec (retryEnds s) s.cancel s.kind s.a2
     simpa using ⟨this.2.1, this.2.2.1, this.2.2.2.1⟩
-  · have := attempt_spec s.cancel s.kind s.a1
+  · have := attempt_spec s.cancel s.cancel s.kind s.a1
     simpa using ⟨this.2.1, this.2.2.1, this.2.2.2.1⟩
 
 theorem own_model (s : Scn) : POwn s (obsOf (run s)) := by
@@ -137,32 +151,25 @@ theorem notLost_model (s : Scn) : PNotLost s (obsOf (run s)) := by
   · simp [hh.2.1 hx, (obs_result _).2 hx]
   · simp [hh.2.2 hx, (obs_done _).2 hx]
 
-/-- A per-message rejection (authorization denied, transport error, the caller's context ending in flight, a
-JSON-RPC error body, a transient status) and a completed request leave the connection usable. -/
+/-- A per-message rejection (the token source failing, authorization denied, a transport error, the caller's context
+ending while the POST or the JSON body is in flight, a JSON-RPC error body, a transient status) and a completed request
+leave the connection usable. -/
 theorem rejection_keeps_connection (s : Scn)
     (h : rejection s (run s).posts = true ∨ accepted s (run s).posts = true) : (run s).conn = .usable := by
   have hb := retry_bound_to_caller
-  rcases run_eq s with ⟨h1, h2, hr⟩ | ⟨h1, h2, _, hr⟩ | ⟨h1, h2, _, hr⟩ | ⟨h1, h2, hr⟩ | ⟨h1, hr⟩ <;> rw [hr] at h ⊢
-  · simp [rejection, accepted, firstOnly, lastAns, h1, h2] at h
-  · simp only [rejection, accepted, firstOnly, lastAns, h1] at h
-    have := attempt_spec (retryEnds s) s.kind s.a2
+  rcases run_eq s with ⟨h1, hr⟩ | ⟨hT, ⟨h1, h2, hr⟩ | ⟨h1, h2, _, hr⟩ | ⟨h1, h2, _, hr⟩ | ⟨h1, h2, hr⟩ | ⟨h1, hr⟩⟩ <;> rw [hr] at h ⊢
+  · simp [rejection, accepted, unsent, firstOnly, lastAns, h1, h2] at h
+  · simp only [rejection, accepted, unsent, firstOnly, lastAns, h1] at h
+    have := attempt_spec (retryEnds s) s.cancel s.kind s.a2
     simp at h ⊢
     rcases h with h | h
-    · cases hc : s.cancel
-      · have he : retryEnds s = false := by simp [retryEnds, hc]
-        rw [he] at this ⊢
-        rw [hc] at h
-        exact (this.2.2.2.2.1 h).1
-      · have he : retryEnds s = true := by simp [retryEnds, hc, hb]
-        rw [he] at this ⊢
-        rw [hc] at h
-        exact (this.2.2.2.2.1 h).1
+    · exact this.2.2.2.2.1 ⟨h, by intro hc; simp [retryEnds, hc, hb]⟩
     · exact this.2.2.2.2.2.1 h
-  · simp only [rejection, accepted, firstOnly, lastAns, h1] at h
-    have := attempt_spec s.cancel s.kind s.a1
+  · simp only [rejection, accepted, unsent, firstOnly, lastAns, h1] at h
+    have := attempt_spec s.cancel s.cancel s.kind s.a1
     simp at h ⊢
     rcases h with h | h
-    · exact (this.2.2.2.2.1 h).1
+    · exact this.2.2.2.2.1 ⟨h, by intro hc; exact hc⟩
     · exact this.2.2.2.2.2.1 h
 
 theorem keeps_model (s : Scn) : PKeeps s (obsOf (run s)) := by
@@ -175,15 +182,16 @@ theorem keeps_model (s : Scn) : PKeeps s (obsOf (run s)) := by
 the connection is dead: the message fails with ErrSessionMissing and later calls fail. -/
 theorem session_gone_kills_connection (s : Scn) (h : sessionGone s (run s).posts = true) :
     (run s).conn = .dead ∧ (run s).end_ = .err .gone := by
-  rcases run_eq s with ⟨h1, h2, hr⟩ | ⟨h1, h2, _, hr⟩ | ⟨h1, h2, _, hr⟩ | ⟨h1, h2, hr⟩ | ⟨h1, hr⟩ <;> rw [hr] at h ⊢ <;>
-    simp only [sessionGone, firstOnly, lastAns, h1] at h
+  rcases run_eq s with ⟨h1, hr⟩ | ⟨hT, ⟨h1, h2, hr⟩ | ⟨h1, h2, _, hr⟩ | ⟨h1, h2, _, hr⟩ | ⟨h1, h2, hr⟩ | ⟨h1, hr⟩⟩ <;> rw [hr] at h ⊢ <;>
+    simp only [sessionGone, unsent, firstOnly, lastAns, h1] at h
   · simp at h
   · simp at h
   · simp at h
-  · have := (attempt_spec (retryEnds s) s.kind s.a2).2.2.2.2.2.2
+  · simp at h
+  · have := (attempt_spec (retryEnds s) s.cancel s.kind s.a2).2.2.2.2.2.2
     simp at h
     simpa using this h
-  · have := (attempt_spec s.cancel s.kind s.a1).2.2.2.2.2.2
+  · have := (attempt_spec s.cancel s.cancel s.kind s.a1).2.2.2.2.2.2
     simp at h
     simpa using this h
 
@@ -248,5 +256,11 @@ example : monitor { auth := .grant, cancel := true, a1 := .st 401 false, a2 := .
     { posts := 2, auths := 1, end_ := .hang, probe := .skipped } = some .ctx := by decide
 example : run { a1 := .st 404 false } = { posts := 1, auths := 0, toks := [false], end_ := .err .gone, conn := .dead } := by decide
 example : run { a1 := .st 503 false } = { posts := 1, auths := 0, toks := [false], end_ := .err (.transient 503), conn := .usable } := by decide
+/-- the token source fails: nothing is sent, the message is refused, the connection stays usable -/
+example : run { auth := .grant, ts := .tokErr, a1 := .ok .json true } =
+    { posts := 0, auths := 0, toks := [], end_ := .err .tokenSource, conn := .usable } := by decide
+/-- the JSON body never comes and the caller gives up: a context error, the connection stays usable -/
+example : run { cancel := true, a1 := .ok .jsonHang true } =
+    { posts := 1, auths := 0, toks := [false], end_ := .err .ctx, conn := .usable } := by decide
 
 end ClientWrite
